@@ -188,3 +188,37 @@ Definition delete_unlink_fails (content : node -> list node) (isman : node -> bo
            (s : ostore) (n : node) : ostore :=
   let s' := fst (ostep true true true content isman 0 s (PDelete n)) in
   mkO (o_blobs s) (o_bydigest s') (o_tagged s') (o_graph s') (o_dbydigest s') (o_dtagged s').
+
+(* ---- Store.AutoSaveIndex and Store.SaveIndex ----
+   With AutoSaveIndex = false none of Push / Tag / Untag / Delete / GC writes index.json
+   (every saveIndex call in them is guarded by `if s.AutoSaveIndex`); SaveIndex writes it.
+   [astep] wraps [ostep] (the code as it is: all three flags true): when the flag is off the
+   file part of the state is kept as it was.  A reopen loads whatever index.json holds; the
+   step reports false when the index was not saved (resolver and file differ) -- the
+   documented responsibility of the caller. *)
+Record astore := mkA { a_s : ostore; a_auto : bool }.
+Definition empty_astore : astore := mkA empty_store true.
+Inductive aop := AOp (o : oop) | ASetAuto (v : bool) | ASaveIndex.
+Definition keep_disk (s s' : ostore) : ostore :=
+  mkO (o_blobs s') (o_bydigest s') (o_tagged s') (o_graph s') (o_dbydigest s) (o_dtagged s).
+Definition synced_b (s : ostore) : bool :=
+  forallb (fun p => smem p (o_dbydigest s) || smem p (o_dtagged s)) (o_bydigest s) &&
+  forallb (fun p => smem p (o_bydigest s)) (o_dbydigest s ++ o_dtagged s).
+Definition astep (content : node -> list node) (isman : node -> bool) (fuel : nat)
+           (a : astore) (o : aop) : astore * bool :=
+  match o with
+  | ASetAuto v => (mkA (a_s a) v, true)
+  | ASaveIndex => (mkA (osave (a_s a)) (a_auto a), true)
+  | AOp op =>
+      let (s', ok) := ostep true true true content isman fuel (a_s a) op in
+      match op with
+      | PReopen | PForeign _ => (mkA s' (a_auto a), ok && synced_b (a_s a))
+      | _ => (mkA (if a_auto a then s' else keep_disk (a_s a) s') (a_auto a), ok)
+      end
+  end.
+Fixpoint arun content isman fuel (a : astore) (ops : list aop) : astore * bool :=
+  match ops with
+  | [] => (a, true)
+  | o :: r => let (a1, ok1) := astep content isman fuel a o in
+              let (a2, ok2) := arun content isman fuel a1 r in (a2, ok1 && ok2)
+  end.
